@@ -191,7 +191,7 @@ func (e *Engine) purePanicIf(c T, msg string) {
 		// accumulate; discharged once when the merged computation ends
 		e.panicAcc = tor(e.panicAcc, c)
 		if len(e.panicMsgs) < 8 {
-			e.panicMsgs = append(e.panicMsgs, msg+" at "+e.site)
+			e.panicMsgs = append(e.panicMsgs, msg+" at "+e.where())
 		}
 		return
 	}
